@@ -487,3 +487,86 @@ func directedRAs() [][]byte {
 		mkRA(64, 0, 1800, 0, 0, opt(1, 1, mac), append([]byte{3, 4, 200, 0xc0}, make([]byte, 28)...)),                       // prefix length 200 (was: accepted with a nil prefix)
 	}
 }
+
+// ---------------------------------------------------------------------------------------------
+// MANY ENTRIES OF ONE ELEMENT, up to what the Length octet allows: the count domain
+// 1, 2, 15, 16, 17, 31, 32, 33, 63, 64, max for every variable-length option the handler records, and the
+// Length octet domain 1, 2, 31, 32, 33, 127, 128, 254, 255 with matching and non-matching actual sizes.
+var countDomain = []int{1, 2, 15, 16, 17, 31, 32, 33, 63, 64}
+var lengthDomain = []int{1, 2, 31, 32, 33, 127, 128, 254, 255}
+
+func rdnssN(rng *lib.Rand, n int) []byte { // n servers in ONE option: Length = 1 + 2n (n <= 127)
+	body := append([]byte{0, 0}, be32b(uint32(600+n))...)
+	for i := 0; i < n; i++ {
+		a := []byte{0x20, 0x01, 0x0d, 0xb8, 0, 0, 0, 0, 0, 0, 0, 0, 0, 0, byte(i >> 8), byte(i)}
+		if rng.Chance(10) {
+			a = specialIP6(rng)
+		}
+		body = append(body, a...)
+	}
+	return opt(25, 1+2*n, body)
+}
+
+func dnsslN(rng *lib.Rand, names int, labels int) []byte { // names x labels short labels, as long as the option fits 255*8 bytes
+	body := append([]byte{0, 0}, be32b(uint32(900+names))...)
+	for i := 0; i < names; i++ {
+		nb := []byte{}
+		for j := 0; j < labels; j++ {
+			lab := []byte{byte('a' + (i+j)%26), byte('0' + j%10)}
+			nb = append(nb, byte(len(lab)))
+			nb = append(nb, lab...)
+		}
+		nb = append(nb, 0)
+		if len(body)+len(nb)+2 > 255*8-8 {
+			break
+		}
+		body = append(body, nb...)
+	}
+	for (len(body)+2)%8 != 0 {
+		body = append(body, 0)
+	}
+	return opt(31, (len(body)+2)/8, body)
+}
+
+func countDomainRAs(rng *lib.Rand) [][]byte {
+	var out [][]byte
+	hdr := func() []byte { return mkRA(64, 0xc0, 1800, 1, 2) }
+	for _, n := range append(append([]int{}, countDomain...), 126, 127) {
+		out = append(out, append(hdr(), rdnssN(rng, n)...))                          // one RDNSS option with n servers
+		out = append(out, append(hdr(), dnsslN(rng, n, 1)...))                       // n one-label names
+		out = append(out, append(hdr(), dnsslN(rng, 1, n)...))                       // one name of n labels
+	}
+	out = append(out, append(append(hdr(), rdnssN(rng, 16)...), rdnssN(rng, 17)...)) // two big options
+	for _, n := range []int{1, 2, 15, 16, 17, 31, 32, 33, 45, 63, 64} {             // n options of one kind
+		m1, m2, m3, m4, m5 := hdr(), hdr(), hdr(), hdr(), hdr()
+		for i := 0; i < n; i++ {
+			m1 = append(m1, optP(64, 0xc0, uint32(i), uint32(i), 0x20, 0x01, 0x0d, 0xb8, byte(i))...)
+			m2 = append(m2, optR(48, 0x08, uint32(i), 2, 0x20, 0x01, 0x0d, 0xb8, 0, byte(i))...)
+			m3 = append(m3, opt(5, 1, []byte{0, 0, 0, 0, 5, byte(i)})...)
+			m4 = append(m4, opt(1, 1, []byte{2, 0, 0, 0, 0, byte(i)})...)
+			m5 = append(m5, rdnssN(rng, 1)...)
+		}
+		out = append(out, m1, m2, m3, m4, m5)
+	}
+	// the Length octet domain for every known type and one unknown type: a matching body, a body one block
+	// short (overrun) and one block long (the rest is parsed as further options)
+	for _, t := range []byte{1, 2, 3, 5, 24, 25, 31, 14} {
+		for _, l := range lengthDomain {
+			body := rng.Bytes(8*l - 2)
+			if t == 25 || t == 31 || t == 24 {
+				copy(body, []byte{0, 0, 0, 0, 0, 9})
+			}
+			if t == 31 { // a plausible name list so that long DNSSL options are decoded, not just rejected
+				b := dnsslN(rng, 200, 1)
+				copy(body[6:], b[8:])
+			}
+			full := opt(t, l, body)
+			out = append(out, append(hdr(), full...))
+			if l > 1 {
+				out = append(out, append(hdr(), full[:len(full)-8]...))
+			}
+			out = append(out, append(append(hdr(), full...), opt(1, 1, []byte{2, 0, 0, 0, 0, 1})...))
+		}
+	}
+	return out
+}
